@@ -21,6 +21,8 @@ type Solver struct {
 	in      *bufio.Writer
 	inc     io.WriteCloser
 	out     *bufio.Reader
+	lines   chan string // lines of the current solver process (closed when it dies)
+	nrestart int
 	defined map[int]bool
 	stack   []*Term
 	nq      int
@@ -37,28 +39,53 @@ type Solver struct {
 }
 
 func NewSolver(bin string, timeoutMs int) *Solver {
-	args := []string{"-in"}
-	if strings.Contains(bin, "cvc5") {
-		args = []string{"--incremental", "--lang", "smt2", "--produce-models", fmt.Sprintf("--tlimit-per=%d", timeoutMs)}
+	s := &Solver{bin: bin, timeout: timeoutMs}
+	if os.Getenv("VF_SMTLOG") != "" {
+		f, _ := os.Create(os.Getenv("VF_SMTLOG"))
+		s.log = f
 	}
-	cmd := exec.Command(bin, args...)
+	s.start()
+	return s
+}
+
+// start launches a fresh solver process; nothing is declared or pushed in it.
+func (s *Solver) start() {
+	args := []string{"-in"}
+	if strings.Contains(s.bin, "cvc5") {
+		args = []string{"--incremental", "--lang", "smt2", "--produce-models", fmt.Sprintf("--tlimit-per=%d", s.timeout)}
+	}
+	cmd := exec.Command(s.bin, args...)
 	in, _ := cmd.StdinPipe()
 	outp, _ := cmd.StdoutPipe()
 	cmd.Stderr = cmd.Stdout
 	if err := cmd.Start(); err != nil {
 		panic(err)
 	}
-	s := &Solver{bin: bin, cmd: cmd, inc: in, in: bufio.NewWriterSize(in, 1<<16), out: bufio.NewReaderSize(outp, 1<<20), defined: map[int]bool{}, timeout: timeoutMs}
-	if os.Getenv("VF_SMTLOG") != "" {
-		f, _ := os.Create(os.Getenv("VF_SMTLOG"))
-		s.log = f
-	}
+	s.cmd, s.inc = cmd, in
+	s.in = bufio.NewWriterSize(in, 1<<16)
+	s.out = bufio.NewReaderSize(outp, 1<<20)
+	s.defined = map[int]bool{}
+	s.stack = nil
+	s.allVars = nil
+	s.extra = false
+	lines := make(chan string, 1024)
+	s.lines = lines
+	rd := s.out
+	go func() {
+		for {
+			line, err := rd.ReadString('\n')
+			if err != nil {
+				close(lines)
+				return
+			}
+			lines <- line
+		}
+	}()
 	s.send("(set-option :global-declarations true)")
 	s.send("(set-option :produce-models true)")
-	if !strings.Contains(bin, "cvc5") {
-		s.send(fmt.Sprintf("(set-option :timeout %d)", timeoutMs))
+	if !strings.Contains(s.bin, "cvc5") {
+		s.send(fmt.Sprintf("(set-option :timeout %d)", s.timeout))
 	}
-	return s
 }
 
 func (s *Solver) send(l string) {
@@ -69,6 +96,10 @@ func (s *Solver) send(l string) {
 	s.in.WriteString("\n")
 }
 
+// ask sends l and collects the answer lines.  A hard wall-clock limit guards
+// against a solver that ignores its own time limits: the process is killed and
+// restarted (empty assertion stack) and the current path ends as unsupported
+// (inconclusive), never as "holds".
 func (s *Solver) ask(l string) []string {
 	if l != "" {
 		s.send(l)
@@ -76,16 +107,29 @@ func (s *Solver) ask(l string) []string {
 	s.send(`(echo "<<END>>")`)
 	s.in.Flush()
 	var res []string
+	limit := time.Duration(4*s.timeout)*time.Millisecond + 20*time.Second
+	timer := time.NewTimer(limit)
+	defer timer.Stop()
 	for {
-		line, err := s.out.ReadString('\n')
-		if err != nil {
-			panic(fmt.Errorf("solver died: %v; got %v", err, res))
+		select {
+		case line, ok := <-s.lines:
+			if !ok {
+				panic(fmt.Errorf("solver died; got %v", res))
+			}
+			line = strings.TrimRight(line, "\r\n")
+			if strings.Trim(line, `"`) == "<<END>>" {
+				return res
+			}
+			res = append(res, line)
+		case <-timer.C:
+			s.cmd.Process.Kill()
+			s.inc.Close()
+			s.cmd.Wait()
+			s.nrestart++
+			s.nunk++
+			s.start()
+			abort("unsupported", "solver did not answer within the hard limit of %v; query abandoned, solver restarted", limit)
 		}
-		line = strings.TrimRight(line, "\r\n")
-		if strings.Trim(line, `"`) == "<<END>>" {
-			return res
-		}
-		res = append(res, line)
 	}
 }
 
